@@ -1,5 +1,812 @@
-"""placeholder"""
+"""C15 engine: concurrent encodes do not interfere (schedules).
 
-def main(opts):
-    print("HARNESS-ERROR not built yet")
-    return 2
+Real caller threads, one baton.  Each thread calls rtf_encode() on its own
+document; a trace function hands control to the scheduler at every library
+call (and, optionally, return) boundary; the scheduler follows an explicit or
+seeded decision source and records every switch, so a run is replayed from its
+decision list alone.  Oracle: each thread's outcome equals the reference of its
+recipe computed alone in a pristine process.  See DESIGN §5.
+"""
+
+from __future__ import annotations
+
+import _thread
+import os
+import shutil
+import sys
+import tempfile
+import threading
+import time
+
+from . import core, recipes as R
+from .core import HarnessError, cjson, digest
+
+PROP = "C15"
+WATCHDOG_S = 25.0
+
+
+# --------------------------------------------------------------------------
+# plan generation (pure)
+# --------------------------------------------------------------------------
+
+
+def gen_doc(rng, force_colour=True) -> dict:
+    t = R.gen_toggles(rng)
+    if force_colour and not t["palette"]:
+        t["colours"] = True
+        t["palette"] = rng.sample(R.COLORS, rng.choice([1, 2, 3]))
+    if rng.random() < 0.7:
+        t["small_nrow"] = False  # keep most documents short: the schedule space is the subject
+    pal = R.gen_palette_of_specs(rng, t)
+    return R.gen_recipe(rng, t, pal)
+
+
+def gen_plan(rng) -> dict:
+    n = 2 if rng.random() < 0.7 else 3
+    recs = [gen_doc(rng, force_colour=rng.random() < 0.9) for _ in range(n)]
+    kind = rng.choice(["strata", "strata", "random", "pct", "one"])
+    dec: dict = {"kind": kind}
+    if kind == "strata":
+        m = rng.choice([1, 2, 2, 3, 3])
+        dec["points"] = sorted(rng.random() for _ in range(m))
+        dec["targets"] = [rng.randrange(n) for _ in range(m)]
+    elif kind == "random":
+        dec["p"] = rng.choice([1e-3, 1e-2, 1e-1])
+        dec["seed"] = rng.randrange(2 ** 32)
+    elif kind == "pct":
+        dec["prio"] = rng.sample(range(n), n)
+        d = rng.choice([1, 2, 3])
+        dec["points"] = sorted(rng.random() for _ in range(d))
+    else:  # one pre-emption at a seeded point, other thread(s) run to completion
+        dec["points"] = [rng.random()]
+        dec["targets"] = [rng.randrange(n)]
+    abort = None
+    if rng.random() < 0.15:
+        abort = {"thread": rng.randrange(n), "u": rng.random(),
+                 "exc": rng.choice(["MemoryError", "KeyboardInterrupt", "ValueError"]), "k": None}
+    return {"recipes": recs, "decider": dec, "first": rng.randrange(n),
+            "trace_mode": rng.choice(["call", "call", "callret"]), "decisions": None, "abort": abort}
+
+
+# --------------------------------------------------------------------------
+# scheduler (runs inside the simulation child)
+# --------------------------------------------------------------------------
+
+
+class SimDeadlock(Exception):
+    pass
+
+
+class Sched:
+    def __init__(self, n: int, plan: dict, total_steps_hint: int):
+        self.n = n
+        self.gates = [_thread.allocate_lock() for _ in range(n)]
+        for g in self.gates:
+            g.acquire()
+        self.main_gate = _thread.allocate_lock()
+        self.main_gate.acquire()
+        self.state = ["ready"] * n  # ready | blocked | done
+        self.blocked_on: dict = {}
+        self.idents: dict = {}
+        self.current = None
+        self.step = 0
+        self.decisions: list = []  # [step, to_thread]
+        self.switch_log: list = []  # (step, from, to, site_from, in_ctx)
+        self.lock_yields = 0
+        self.deadlock = None
+        self.last_event = time.monotonic()
+        self.inside = [False] * n  # thread is inside rtf_encode
+        self.both_inside_switches = 0
+        self.thread_steps = [0] * n
+        self.sites_seen: set = set()
+        self.collect_sites = plan.get("collect_sites", False)
+        dec = plan["decider"]
+        self.kind = dec["kind"] if plan.get("decisions") is None else "explicit"
+        self.explicit = {int(s): int(t) for s, t in (plan.get("decisions") or [])}
+        hint = max(1, total_steps_hint)
+        if self.kind in ("strata", "one"):
+            self.points = {}
+            for u, tgt in zip(dec["points"], dec["targets"]):
+                self.points[1 + int(u * hint)] = tgt
+        elif self.kind == "random":
+            import random
+
+            self.rng = random.Random(dec["seed"])
+            self.p = dec["p"]
+        elif self.kind == "pct":
+            self.prio = list(dec["prio"])
+            self.points = {1 + int(u * hint) for u in dec["points"]}
+            self.low = -1
+
+    # -- identification ---------------------------------------------------
+    def index_of_current(self):
+        return self.idents.get(_thread.get_ident())
+
+    # -- decisions ----------------------------------------------------------
+    def runnable(self):
+        return [i for i in range(self.n) if self.state[i] == "ready"]
+
+    def _other(self, i, want=None):
+        r = [j for j in self.runnable() if j != i]
+        if not r:
+            return None
+        if want is not None and want in r:
+            return want
+        return r[(want or 0) % len(r)] if want is not None else r[0]
+
+    def choose(self, i):
+        s = self.step
+        k = self.kind
+        if k == "explicit":
+            t = self.explicit.get(s)
+            if t is not None and t != i and self.state[t] == "ready":
+                return t
+            return i
+        if k in ("strata", "one"):
+            if s in self.points:
+                o = self._other(i, self.points[s])
+                return i if o is None else o
+            return i
+        if k == "random":
+            if self.rng.random() < self.p:
+                r = [j for j in self.runnable() if j != i]
+                if r:
+                    return r[self.rng.randrange(len(r))]
+            return i
+        if k == "pct":
+            if s in self.points:
+                self.prio[i] = self.low
+                self.low -= 1
+            r = self.runnable()
+            best = max(r, key=lambda j: self.prio[j])
+            return best
+        return i
+
+    def next_after_finish_or_block(self, i):
+        r = self.runnable()
+        if not r:
+            return None
+        if self.kind == "pct":
+            return max(r, key=lambda j: self.prio[j])
+        # default policy: lowest index ready thread
+        return r[0]
+
+    # -- events ---------------------------------------------------------------
+    def boundary(self, i, frame, ev):
+        self.step += 1
+        self.thread_steps[i] += 1
+        self.last_event = time.monotonic()
+        if self.collect_sites:
+            from . import boot
+
+            self.sites_seen.add(boot.site_of(frame.f_code))
+        nxt = self.choose(i)
+        if nxt != i:
+            self.switch(i, nxt, frame)
+
+    def switch(self, i, nxt, frame=None):
+        from . import boot, state
+
+        site = boot.site_of(frame.f_code) if frame is not None else "?"
+        in_ctx = None
+        try:
+            in_ctx = state.s1_digest().get("colour_ctx") not in (None, "n/a")
+        except Exception:
+            pass
+        if self.inside[i] and self.inside[nxt]:
+            self.both_inside_switches += 1
+        self.decisions.append([self.step, nxt])
+        self.switch_log.append([self.step, i, nxt, site, in_ctx])
+        self.current = nxt
+        self.gates[nxt].release()
+        self.gates[i].acquire()
+
+    def start(self, first):
+        self.current = first
+        self.gates[first].release()
+
+    def finish(self, i):
+        self.state[i] = "done"
+        self.last_event = time.monotonic()
+        nxt = self.next_after_finish_or_block(i)
+        if nxt is None:
+            if any(s == "blocked" for s in self.state):
+                self.deadlock = {str(j): repr(self.blocked_on.get(j)) for j in range(self.n)
+                                 if self.state[j] == "blocked"}
+            self.main_gate.release()
+            return
+        self.current = nxt
+        self.gates[nxt].release()
+
+    # -- cooperative locks -----------------------------------------------------
+    def block_on(self, i, lock):
+        self.lock_yields += 1
+        self.state[i] = "blocked"
+        self.blocked_on[i] = lock
+        nxt = self.next_after_finish_or_block(i)
+        if nxt is None:
+            self.deadlock = {str(j): repr(self.blocked_on.get(j)) for j in range(self.n)
+                             if self.state[j] == "blocked"}
+            self.state[i] = "done"
+            self.main_gate.release()
+            raise SimDeadlock("all simulated threads are blocked")
+        self.decisions.append([self.step, nxt])
+        self.current = nxt
+        self.gates[nxt].release()
+        self.gates[i].acquire()
+
+    def lock_released(self, lock):
+        for j, l in list(self.blocked_on.items()):
+            if l is lock and self.state[j] == "blocked":
+                self.state[j] = "ready"
+                del self.blocked_on[j]
+
+
+# --------------------------------------------------------------------------
+# execution (pristine child)
+# --------------------------------------------------------------------------
+
+
+def exec_schedule(arg) -> dict:
+    from . import boot, cooplock
+    from .trace import EXC_TYPES, in_cleanup
+
+    boot.bootstrap(coop_locks=True)
+    plan = arg["plan"]
+    refs = arg["refs"]
+    figdir = arg["figdir"]
+    os.makedirs(figdir, exist_ok=True)
+    R.warmup()
+    recs = plan["recipes"]
+    n = len(recs)
+    docs = []
+    for r in recs:
+        holder = {}
+
+        def construct(r=r, holder=holder):
+            holder["doc"], _ = R.build(r, None, None, figdir)
+            return "constructed"
+
+        o = R.outcome_of(construct)
+        docs.append(holder.get("doc") if o["k"] == "ok" else None)
+    mult = 2 if plan.get("trace_mode") == "callret" else 1
+    hint = sum((refs[str(i)].get("ncalls") or 0) for i in range(n)) * mult
+    sched = Sched(n, plan, hint)
+    want_ret = plan.get("trace_mode") == "callret"
+    outcomes: list = [None] * n
+    abort = plan.get("abort")
+    abort_fired = [None]
+
+    def make_tracer(i):
+        excf = set()
+        ab = abort if abort and abort["thread"] == i else None
+        abk = None
+        if ab:
+            abk = ab.get("k")
+            if abk is None:
+                nc = (refs[str(i)].get("ncalls") or 0) * mult
+                abk = 1 + int(ab["u"] * nc) if nc else None
+
+        def local(frame, event, a):
+            if event == "return":
+                if id(frame) in excf:
+                    excf.discard(id(frame))
+                else:
+                    sched.boundary(i, frame, "return")
+            elif event == "exception":
+                excf.add(id(frame))
+            return local
+
+        def tracer(frame, event, a):
+            if event != "call" or not boot.is_lib_code(frame.f_code):
+                return None
+            sched.boundary(i, frame, "call")
+            if abk is not None and abort_fired[0] is None and sched.thread_steps[i] >= abk and not in_cleanup(frame):
+                abort_fired[0] = {"thread": i, "k": sched.thread_steps[i], "site": boot.site_of(frame.f_code),
+                                  "exc": ab["exc"]}
+                raise EXC_TYPES[ab["exc"]]("injected " + ab["exc"])
+            if want_ret:
+                frame.f_trace_lines = False
+                return local
+            return None
+
+        return tracer
+
+    def worker(i):
+        sched.idents[_thread.get_ident()] = i
+        sched.gates[i].acquire()
+        try:
+            if docs[i] is None:
+                outcomes[i] = {"k": "construct_failed"}
+            else:
+                tr = make_tracer(i)
+                sched.inside[i] = True
+                sys.settrace(tr)
+                try:
+                    o = R.outcome_of(docs[i].rtf_encode)
+                finally:
+                    sys.settrace(None)
+                    sched.inside[i] = False
+                outcomes[i] = o
+        except BaseException as e:  # noqa: BLE001
+            outcomes[i] = {"k": "harness", "type": type(e).__name__, "msg": str(e)[:200]}
+        finally:
+            sched.finish(i)
+
+    cooplock.SCHED = sched
+    threads = [threading.Thread(target=worker, args=(i,), daemon=True, name=f"sim-{i}") for i in range(n)]
+    for t in threads:
+        t.start()
+    # wait until every worker has registered and parked (they block on their gates)
+    t_reg = time.monotonic()
+    while len(sched.idents) < n:
+        if time.monotonic() - t_reg > 10:
+            raise HarnessError("simulated threads failed to start")
+        time.sleep(0.0005)
+    sched.start(plan["first"] % n)
+    hung = False
+    while True:
+        if sched.main_gate.acquire(timeout=1.0):
+            break
+        if time.monotonic() - sched.last_event > WATCHDOG_S:
+            hung = True
+            break
+    cooplock.SCHED = None
+    if hung:
+        raise HarnessError(f"baton holder (thread {sched.current}) produced no event for {WATCHDOG_S}s "
+                           f"at step {sched.step}")
+    out_threads = []
+    for i in range(n):
+        o = outcomes[i] or {"k": "none"}
+        text = o.pop("_text", None) if isinstance(o, dict) else None
+        ent = {"thread": i, "outcome": R.strip(o), "steps": sched.thread_steps[i]}
+        ref = refs[str(i)]["encode"]
+        if text is not None and ref is not None and not R.same_outcome(ent["outcome"], ref):
+            ent["text"] = text
+        out_threads.append(ent)
+    return {
+        "threads": out_threads,
+        "decisions": sched.decisions,
+        "switch_log": sched.switch_log,
+        "steps": sched.step,
+        "lock_yields": sched.lock_yields,
+        "deadlock": sched.deadlock,
+        "both_inside_switches": sched.both_inside_switches,
+        "abort_fired": abort_fired[0],
+        "coop_locks_created": dict(cooplock.CREATED),
+        "sites_seen": sorted(sched.sites_seen) if sched.collect_sites else None,
+    }
+
+
+# --------------------------------------------------------------------------
+# judging (pure)
+# --------------------------------------------------------------------------
+
+
+def judge(plan: dict, res: dict, refs: dict) -> list:
+    out = []
+    ab = res.get("abort_fired")
+    if res.get("deadlock"):
+        out.append({"class": "deadlock", "thread": None, "observed": res["deadlock"], "expected": None})
+    for ent in res["threads"]:
+        i = ent["thread"]
+        if ab and ab["thread"] == i:
+            continue  # an aborted thread is never judged on its own result
+        ref = refs[str(i)]
+        oc = ent["outcome"]
+        if ref["construct"]["k"] != "ok":
+            continue
+        re_ = ref["encode"]
+        if oc["k"] in ("harness", "none", "construct_failed"):
+            out.append({"class": "thread_did_not_finish", "thread": i, "observed": oc, "expected": re_})
+            continue
+        if not R.same_outcome(oc, re_):
+            if re_["k"] == "ok" and oc["k"] == "ok":
+                cls = "output_differs"
+            elif re_["k"] == "ok":
+                cls = "exception_vs_ok"
+            elif oc["k"] == "ok":
+                cls = "ok_vs_exception"
+            else:
+                cls = "other_exception"
+            v = {"class": cls, "thread": i, "observed": oc, "expected": re_}
+            if "text" in ent:
+                v["_text"] = ent["text"]
+            out.append(v)
+    for v in out:
+        v["nthreads"] = len(plan["recipes"])
+        v["paths"] = [r["kind"] for r in plan["recipes"]]
+        v["after_abort"] = bool(ab)
+        v["switches"] = len(res["decisions"])
+    return out
+
+
+def signature(v: dict) -> dict:
+    return {"class": v["class"], "nthreads": v["nthreads"],
+            "victim_path": v["paths"][v["thread"]] if v.get("thread") is not None else None,
+            "after_abort": v["after_abort"]}
+
+
+# --------------------------------------------------------------------------
+# references, running, minimising, replay
+# --------------------------------------------------------------------------
+
+
+class RefCache:
+    def __init__(self, figdir):
+        self.figdir = figdir
+        self.cache: dict = {}
+
+    def get(self, recipe, want_text=False, want_sites=False):
+        h = R.recipe_hash(recipe)
+        if not want_text and not want_sites and h in self.cache:
+            return self.cache[h]
+        ref = core.run_in_child(R.reference_worker, {"recipe": recipe, "figdir": self.figdir, "warmup": True,
+                                                     "want_text": want_text, "want_sites": want_sites})
+        if not want_text and not want_sites:
+            self.cache[h] = ref
+        return ref
+
+    def for_plan(self, plan):
+        return {str(i): self.get(r) for i, r in enumerate(plan["recipes"])}
+
+
+def run_plan(plan, refs, figdir) -> dict:
+    return core.run_in_child(exec_schedule, {"plan": plan, "refs": refs, "figdir": figdir})
+
+
+def explicit(plan: dict, res: dict) -> dict:
+    """The same run as an explicit decision list (replayable without the generator)."""
+    p = R_json_copy(plan)
+    p["decisions"] = [list(d) for d in res["decisions"]]
+    if p.get("abort") and res.get("abort_fired"):
+        p["abort"]["k"] = res["abort_fired"]["k"]
+    elif p.get("abort"):
+        p["abort"] = None
+    return p
+
+
+def R_json_copy(x):
+    import json
+
+    return json.loads(json.dumps(x))
+
+
+def minimise(plan: dict, refs: dict, figdir: str, cls: str, budget_n=120) -> dict:
+    """Drop schedule switches (ddmin) while the same violation class persists."""
+    budget = [budget_n]
+
+    def test(decs):
+        cand = dict(plan, decisions=decs)
+        try:
+            res = run_plan(cand, refs, figdir)
+        except HarnessError:
+            return False
+        return any(v["class"] == cls for v in judge(cand, res, refs))
+
+    decs = list(plan["decisions"])
+    if len(decs) > 1:
+        decs = core.ddmin(decs, test, budget)
+    return dict(plan, decisions=decs)
+
+
+def sequential_control(arg) -> dict:
+    """Diagnosis only: same documents, same order of first entry, one thread."""
+    from . import boot
+
+    boot.bootstrap(coop_locks=True)
+    R.warmup()
+    plan, figdir = arg["plan"], arg["figdir"]
+    outs = []
+    order = arg["order"]
+    docs = {}
+    for i, r in enumerate(plan["recipes"]):
+        try:
+            docs[i], _ = R.build(r, None, None, figdir)
+        except BaseException:  # noqa: BLE001
+            docs[i] = None
+    for i in order:
+        if docs[i] is None:
+            outs.append({"thread": i, "outcome": {"k": "construct_failed"}})
+            continue
+        o = R.outcome_of(docs[i].rtf_encode)
+        o.pop("_text", None)
+        outs.append({"thread": i, "outcome": R.strip(o)})
+    return {"threads": outs}
+
+
+def replay_worker(arg) -> dict:
+    from . import boot
+
+    boot.bootstrap(coop_locks=True)
+    plan = arg["plan"]
+    figdir = tempfile.mkdtemp(prefix="vreplay15")
+    try:
+        rc = RefCache(figdir)
+        refs = rc.for_plan(plan)
+        res = run_plan(plan, refs, figdir)
+        vs = judge(plan, res, refs)
+        for v in vs:
+            v.pop("_text", None)
+        return {"violations": vs, "signatures": [signature(v) for v in vs], "log_digest": run_digest(res)}
+    finally:
+        shutil.rmtree(figdir, ignore_errors=True)
+
+
+def run_digest(res: dict) -> str:
+    return digest({"threads": [{k: v for k, v in t.items() if k != "text"} for t in res["threads"]],
+                   "decisions": res["decisions"], "steps": res["steps"], "deadlock": res["deadlock"],
+                   "switch_log": res["switch_log"]})
+
+
+# --------------------------------------------------------------------------
+# jobs
+# --------------------------------------------------------------------------
+
+_worker_state: dict = {}
+
+
+def _ws():
+    if _worker_state.get("pid") != os.getpid():
+        figdir = tempfile.mkdtemp(prefix="vc15_")
+        _worker_state.clear()
+        _worker_state.update(pid=os.getpid(), figdir=figdir, refcache=RefCache(figdir), minimised=0)
+    return _worker_state
+
+
+def _finish_job(plan, refs, res, idx, ws, max_minimise=2) -> dict:
+    from .histories import diff_class
+
+    vs = judge(plan, res, refs)
+    out = summarise(plan, res, refs, idx)
+    out["violations"] = []
+    if vs:
+        v = vs[0]
+        eplan = explicit(plan, res)
+        if ws["minimised"] < max_minimise and v["class"] != "deadlock":
+            ws["minimised"] += 1
+            try:
+                eplan = minimise(eplan, refs, ws["figdir"], v["class"])
+            except HarnessError:
+                pass
+        if "_text" in v and v.get("thread") is not None and v["class"] == "output_differs":
+            try:
+                rt = ws["refcache"].get(plan["recipes"][v["thread"]], want_text=True).get("text")
+                if rt is not None:
+                    v["class"] = diff_class(v["_text"], rt)
+            except HarnessError:
+                pass
+        v.pop("_text", None)
+        # diagnosis: does a purely sequential run already differ? (history effect, not interleaving)
+        try:
+            order = []
+            for _s, _f, t, _site, _c in res["switch_log"]:
+                if t not in order:
+                    order.append(t)
+            first = plan["first"] % len(plan["recipes"])
+            order = [first] + [t for t in order if t != first]
+            order += [i for i in range(len(plan["recipes"])) if i not in order]
+            seq = core.run_in_child(sequential_control, {"plan": plan, "figdir": ws["figdir"], "order": order})
+            v["sequential_control_differs"] = any(
+                refs[str(e["thread"])]["encode"] is not None
+                and not R.same_outcome(e["outcome"], refs[str(e["thread"])]["encode"])
+                for e in seq["threads"] if e["outcome"]["k"] in ("ok", "raised"))
+        except HarnessError:
+            v["sequential_control_differs"] = None
+        out["violations"].append({"v": v, "sig": signature(v), "plan": eplan, "seed_idx": idx})
+    return out
+
+
+def job(j: dict) -> dict:
+    ws = _ws()
+    idx = j["idx"]
+    if j.get("sweep"):
+        plan = j["plan"]
+    else:
+        plan = gen_plan(core.rng_for(j["root"], PROP, idx))
+    refs = ws["refcache"].for_plan(plan)
+    t0 = time.monotonic()
+    res = run_plan(plan, refs, ws["figdir"])
+    out = _finish_job(plan, refs, res, idx, ws)
+    out["ms"] = int((time.monotonic() - t0) * 1000)
+    out["sweep"] = j.get("sweep")
+    return out
+
+
+def summarise(plan, res, refs, idx) -> dict:
+    sl = res["switch_log"]
+    pairs = set()
+    for a, b in zip(sl, sl[1:]):
+        pairs.add(digest((a[3], b[3])))
+    abstract = digest([(f, t, site) for _s, f, t, site, _c in sl])
+    return {
+        "idx": idx, "digest": run_digest(res), "steps": res["steps"],
+        "nthreads": len(plan["recipes"]), "kind": plan["decider"]["kind"] if plan.get("decisions") is None else "explicit",
+        "switches": len(sl), "decision_digest": digest(res["decisions"]), "abstract_digest": abstract,
+        "both_inside": res["both_inside_switches"],
+        "switch_sites": sorted({s[3] for s in sl}), "site_pairs": sorted(pairs),
+        "in_ctx_switches": sum(1 for s in sl if s[4]),
+        "lock_yields": res["lock_yields"], "coop_locks_created": res["coop_locks_created"],
+        "abort_fired": bool(res["abort_fired"]), "abort_configured": bool(plan.get("abort")),
+        "paths": [r["kind"] for r in plan["recipes"]],
+        "natural_failures": sum(1 for i in range(len(plan["recipes"]))
+                                if refs[str(i)]["encode"] and refs[str(i)]["encode"]["k"] != "ok"),
+        "trace_mode": plan.get("trace_mode"),
+        "sample": {"decider": plan["decider"], "first": plan["first"], "decisions": res["decisions"][:12],
+                   "switch_log": sl[:6], "docs": [R.recipe_traits(r) for r in plan["recipes"]],
+                   "thread_outcomes": [t["outcome"]["k"] for t in res["threads"]]} if idx < 3 else None,
+    }
+
+
+# --------------------------------------------------------------------------
+# one-pre-emption sweep (DESIGN §5): systematic, same simulator
+# --------------------------------------------------------------------------
+
+
+def sweep_pairs(root: int, n_pairs: int) -> list:
+    """Seeded choice of document pairs covering the encode paths."""
+    rng = core.rng_for(root, PROP, "sweep-pairs")
+    want = [("single", "single"), ("single", "multi"), ("single", "figure"), ("multi", "multi"),
+            ("single", "single-failing"), ("multi", "figure")]
+    pairs = []
+    for a_kind, b_kind in want[:n_pairs]:
+        def pick(kind):
+            for _ in range(400):
+                r = gen_doc(rng, force_colour=True)
+                failing = any(f["cols"][0][2][:3] == ["G1", "G2", "G1"] and "group_by" in b
+                              for f, b in zip(r.get("dfs", []), r.get("bodies", [])))
+                base = kind.split("-")[0]
+                if r["kind"] != base:
+                    continue
+                if ("failing" in kind) != failing:
+                    continue
+                rows = sum(len(f["cols"][0][2]) for f in r.get("dfs", []))
+                if rows > 8:
+                    continue
+                return r
+            return gen_doc(rng)
+        pairs.append((pick(a_kind), pick(b_kind)))
+    return pairs
+
+
+def sweep_jobs(root: int, pairs: list, refcache: RefCache, trace_mode: str, stride: int, offset_seed) -> list:
+    jobs = []
+    idx = 10_000_000
+    for pi, (a, b) in enumerate(pairs):
+        for order in (0, 1):
+            recs = [a, b]
+            first = order
+            ref_first = refcache.get(recs[first])
+            K = (ref_first.get("ncalls") or 0) * (2 if trace_mode == "callret" else 1)
+            off = core.rng_for(root, PROP, "sweep-offset", pi, order).randrange(stride) if stride > 1 else 0
+            for k in range(1 + off, K + 1, stride):
+                plan = {"recipes": recs, "decider": {"kind": "sweep"}, "first": first, "trace_mode": trace_mode,
+                        "decisions": [[k, 1 - first]], "abort": None}
+                jobs.append({"idx": idx, "sweep": {"pair": pi, "order": order, "k": k, "K": K}, "plan": plan})
+                idx += 1
+    return jobs
+
+
+# --------------------------------------------------------------------------
+# batch
+# --------------------------------------------------------------------------
+
+TIERS = {"quick": {"runs": 2400, "wall": 420.0, "pairs": 2, "stride": 8, "sweep_mode": "call"},
+         "thorough": {"runs": 60000, "wall": 3000.0, "pairs": 6, "stride": 1, "sweep_mode": "callret"}}
+
+
+def main(opts) -> int:
+    from . import boot, cli
+
+    t0 = time.monotonic()
+    boot.bootstrap(coop_locks=True)
+    tier = TIERS[opts.tier]
+    runs = opts.runs if opts.runs is not None else tier["runs"]
+    wall = opts.wall or tier["wall"]
+    root = opts.seed
+
+    # systematic one-pre-emption sweep
+    figdir = tempfile.mkdtemp(prefix="vc15main_")
+    rc = RefCache(figdir)
+    pairs = sweep_pairs(root, tier["pairs"])
+    sjobs = sweep_jobs(root, pairs, rc, tier["sweep_mode"], tier["stride"], root)
+    jobs = sjobs + [{"root": root, "idx": i} for i in range(runs)]
+    results, truncated = core.pool_map(job, jobs, wall_cap=wall)
+    herrs = [f"run {jobs[i].get('idx')}: {r['harness_error'][:600]}" for i, r in sorted(results.items())
+             if "harness_error" in r]
+    good = [r for _, r in sorted(results.items()) if "harness_error" not in r]
+    violations = [v for r in good for v in r["violations"]]
+
+    def confirm(v):
+        got = core.run_fresh("sim.schedules:replay_worker", {"plan": v["plan"]}, hashseed=0, coop_locks=True,
+                             timeout=300)
+        return bool(got["signatures"])
+
+    def body(v):
+        return {"property": PROP, "engine": "schedules", "signature": v["sig"], "violation": v["v"],
+                "plan": v["plan"], "root_seed": root, "seed_idx": v["seed_idx"], "how": "./check replay <this file>"}
+
+    n_new, n_known, rcode = cli.report(PROP, violations, herrs, confirm, body)
+    wall_s = time.monotonic() - t0
+    if not opts.no_evidence:
+        write_evidence(opts, good, len(jobs), len(results), truncated, sjobs, pairs, tier, n_new, n_known, wall_s, herrs)
+    sw = [r for r in good if r.get("sweep")]
+    print(f"C15 {opts.tier}: {len(good) - len(sw)} seeded schedules + {len(sw)}/{len(sjobs)} sweep schedules, "
+          f"{sum(r['steps'] for r in good)} steps, {n_new} new violation(s), {n_known} known, "
+          f"{len(herrs)} harness error(s), {wall_s:.1f}s" + (" [truncated by wall cap]" if truncated else ""))
+    return rcode
+
+
+def write_evidence(opts, good, njobs, nres, truncated, sjobs, pairs, tier, n_new, n_known, wall_s, herrs):
+    from . import boot
+
+    sw = [r for r in good if r.get("sweep")]
+    seeded = [r for r in good if not r.get("sweep")]
+    dec = {r["decision_digest"] for r in good}
+    nontriv = {r["abstract_digest"] for r in good if r["both_inside"] > 0}
+    sites = set()
+    pairs_seen = set()
+    kinds: dict = {}
+    for r in good:
+        sites.update(r["switch_sites"])
+        pairs_seen.update(r["site_pairs"])
+        kinds[r["kind"]] = kinds.get(r["kind"], 0) + 1
+    sweep_prog: dict = {}
+    for r in sw:
+        s = r["sweep"]
+        key = f"pair{s['pair']}-order{s['order']}"
+        d = sweep_prog.setdefault(key, {"K": s["K"], "done": 0})
+        d["done"] += 1
+    sweep_complete = bool(sjobs) and len(sw) == len(sjobs) and tier["stride"] == 1
+    cov = {
+        "evaluations": len(good),
+        "distinct_nontrivial": len(nontriv),
+        "rule": ("one evaluation = one schedule of 2-3 real caller threads, each encoding its own document, under the "
+                 "baton scheduler in a pristine forked process; pre-emption points are library call (and, in callret "
+                 "mode, return) boundaries. Decision sources: bounded pre-emption strata (1-3 switches at seeded "
+                 "steps), random (p in 1e-3..1e-1), PCT-style priorities, and the systematic one-pre-emption sweep "
+                 "(A runs to its k-th boundary, B runs to completion, A finishes; every k-th k with seeded offset in "
+                 "quick, every k in thorough; both orders). A schedule is non-trivial when at least one switch "
+                 "happened while both threads were inside rtf_encode; distinct by the digest of its abstracted "
+                 "switch list (from-thread, to-thread, pre-empted call site)."),
+        "samples": [r["sample"] for r in good if r.get("sample")][:3],
+        "schedules_seeded": len(seeded), "schedules_sweep": len(sw), "sweep_jobs_planned": len(sjobs),
+        "sweep_stride": tier["stride"], "sweep_trace_mode": tier["sweep_mode"],
+        "sweep_progress": sweep_prog, "sweep_pairs": [[R.recipe_traits(a), R.recipe_traits(b)] for a, b in pairs],
+        "exhaustive": False,
+        "one_preemption_sweep_complete_for_listed_pairs": sweep_complete,
+        "schedules_per_hour": int(len(good) / wall_s * 3600) if wall_s > 0 else 0,
+        "simulated_time": "none (library has no clock); logical steps = library call/return boundaries executed",
+        "steps": sum(r["steps"] for r in good),
+        "switches": sum(r["switches"] for r in good),
+        "distinct_decision_lists": len(dec),
+        "distinct_preempted_sites": len(sites),
+        "distinct_site_pairs_preempted_then_resumed": len(pairs_seen),
+        "switches_inside_colour_context_window": sum(r["in_ctx_switches"] for r in good),
+        "schedules_with_both_threads_inside_encode_at_a_switch": sum(1 for r in good if r["both_inside"] > 0),
+        "by_decision_source": kinds,
+        "three_thread_schedules": sum(1 for r in good if r["nthreads"] == 3),
+        "fault_kinds": {
+            "natural_encode_failure_in_a_thread": {"fired": sum(r["natural_failures"] for r in good)},
+            "injected_abort_of_one_thread": {"configured": sum(1 for r in good if r["abort_configured"]),
+                                             "fired": sum(1 for r in good if r["abort_fired"])},
+            "lock_contention_yields": {"fired": sum(r["lock_yields"] for r in good)},
+        },
+        "cooperative_locks_created_by_library": max([sum(r["coop_locks_created"].values()) for r in good] or [0]),
+        "runs_dispatched": nres, "jobs_planned": njobs, "truncated_by_wall_cap": truncated,
+        "known_findings_matched": n_known, "harness_errors": len(herrs),
+        "real_components": ["rtflite (all of it, from /repo/src)", "pydantic", "polars", "Pillow", "CPython threads"],
+        "stubbed_components": ["thread scheduling decisions (baton scheduler)",
+                               "threading.Lock/RLock created by library code (cooperative versions)"],
+        "source_tree_sha256": boot.source_tree_hash(),
+        "workers": core.n_workers(),
+    }
+    core.write_evidence(PROP, opts.tier, opts.seed, "exploration", cov, [
+        "pre-emption happens only at library call/return boundaries, not between bytecodes of one function",
+        "a forked child of an import-only zygote (plus one colourless warm-up encode) equals the run-alone reference "
+        "environment",
+        "blocking on primitives other than threading.Lock/RLock created by library code is not scheduled; a hang is "
+        "a HARNESS-ERROR, never a verdict",
+        "seeded search samples the schedule space; the sweep is complete only for the listed pairs when "
+        "one_preemption_sweep_complete_for_listed_pairs is true",
+    ], wall_s, n_new)
